@@ -746,7 +746,7 @@ int main(int argc, char** argv) {
         double now = ts.tv_sec + ts.tv_nsec * 1e-9;
         if (deadline > 0 && now - t0 > deadline) { deadlineHit = true; break; }
         g_finalLayer = !fix && layer == nLayers - 1;
-        g_reduced = g_finalLayer && reduceLast;
+        g_reduced = (g_finalLayer && reduceLast) || (fix && reduceLast);
         g_sideBase = out + ".L" + std::to_string(layer);
         std::string lout = g_sideBase + ".json";
         layerSizes.push_back(g_frontier.size());
